@@ -68,6 +68,13 @@ func (svc *service) receiver() {
 			if err != nil {
 				if !isEOF(err) {
 					log.Debugf("(%s) Reading from connection failed: %v", svc.cid(), err)
+
+					// The peer is gone or silent beyond its keep-alive. Close
+					// the connection: a sender blocked in Write fails and closes
+					// the outgoing buffer, which releases a processor (ours or
+					// another connection's) parked on it, so that the connection
+					// is torn down even if its outgoing buffer is full.
+					conn.Close()
 				}
 				return
 			}
